@@ -5,10 +5,8 @@ from vrun import U, REPO
 
 UNITS = []
 
+
 # Native replay links the whole library (htp_util.c references most of it); CBMC drops what is unused.
-_SRC_IN_TU = ('htp_util.c',)
-
-
 def _link(exclude):
     fs = sorted(os.path.basename(p) for p in glob.glob(os.path.join(REPO, 'htp', '*.c')))
     fs = [f for f in fs if f not in exclude]
@@ -19,49 +17,94 @@ def _link(exclude):
 A_B = ['bounded: every raw path of length <= N over all 256 byte values; longer paths are not covered by these units',
        'reference = /verif/spec/path_ref.h (written from htp_config.h / htp_core.h comments, RFC 3986 5.2.4, RFC 3629 and the behaviour pinned by test_utils.cpp); '
        'deliberate reference choices CHOICE(1..7) and KNOWN_F_C12_* carve-outs are listed in notes/c12.md']
+A_CFG = ['decoder configuration fully symbolic: every boolean switch any int, every enum switch any of its enumerators, replacement byte any byte, '
+         'initial tx->flags and expected status symbolic; bestfit_map = the real bestfit_1252 of htp_config.c (same translation unit)']
 
 # known deviations of the unchanged tree from the documented semantics; each macro carves out exactly one
 # case in spec/path_ref.h (reference mirrors the code when defined).  Remove one to see the violation.
 KNOWN_F = {'KNOWN_F_C12_RAW_NUL': 1, 'KNOWN_F_C12_U_NUL_NOTERM': 1, 'KNOWN_F_C12_HALFFULL_FFF0': 1,
            'KNOWN_F_C12_UTF8_TRUNCATED_TAIL': 1}
+MAPLOOPS = 'decode_u_encoding_path.0:392,decode_u_encoding_params.0:392,bestfit_codepoint.0:392,rf_bestfit.0:392'
 
 
-def bounded(name, struct, body, n_q, n_t, sub, src=_SRC_IN_TU, unwind_extra=3, unwindset=None, timeout=(600, 3000),
-            known=True, extra_defs=None, flags_del=('--unsigned-overflow-check',), assumes=(), pre_fn='', **kw):
-    dq = {'N': n_q}
-    dt = {'N': n_t}
-    if known:
-        dq.update(KNOWN_F)
-    if extra_defs:
-        dq.update(extra_defs)
-    UNITS.append(U(
-        name=name, props=['C12'], kind='bounded', src=list(src), link=_link(src), replay='vin',
-        contracts_inc=['path_ref.h', 'c12_path.h'],
-        harness='typedef struct { %s } vin_t;\n%s\nvoid HARNESS(void) { VIN(vin_t);\n%s\nCANARY(); }' % (struct, pre_fn, body),
-        defs={'quick': dq, 'thorough': dt},
-        flags_add=['--unwind', str(max(n_q, n_t) + unwind_extra)] + ([] if unwindset else ['--unwinding-assertions']),
-        unwindset=unwindset, flags_del=list(flags_del),
-        bound='all raw paths of length <= N over all 256 byte values (quick N=%d, thorough N=%d)' % (n_q, n_t),
-        assumes=A_B + list(assumes), sub=sub, timeout=timeout, **kw))
+def bounded(name, struct, body, n_q, n_t, sub, src=('htp_util.c',), unwind_extra=2, unwindset=None, timeout=(600, 3600),
+            known=KNOWN_F, extra_defs=None, flags_del=('--unsigned-overflow-check',), assumes=(), solver=None):
+    """one quick unit (N=n_q) and one thorough-only unit (N=n_t) so that each gets a tight --unwind"""
+    for n, deep in ((n_q, False), (n_t, True)):
+        if n is None:
+            continue
+        d = {'N': n}
+        d.update(known or {})
+        d.update(extra_defs or {})
+        UNITS.append(U(
+            name=name + ('_deep' if deep else ''), props=['C12'], kind='bounded', src=list(src), link=_link(src), replay='vin',
+            contracts_inc=['path_ref.h', 'c12_path.h'],
+            harness='typedef struct { %s } vin_t;\nvoid HARNESS(void) { VIN(vin_t);\n%s\nCANARY(); }' % (struct, body),
+            defs={'quick': d}, thorough_only=deep,
+            flags_add=['--unwind', str(n + unwind_extra)] + ([] if unwindset else ['--unwinding-assertions']),
+            unwindset=unwindset, flags_del=list(flags_del), solver=solver,
+            bound='all raw paths of length <= %d over all 256 byte values' % n,
+            assumes=A_B + list(assumes), sub=sub, timeout=timeout))
 
 
 # ------------------------------------------------------------------------------------------------
-# (c1) normaliser == RFC 3986 5.2.4 + trailing-slash exception; idempotent; no dot segment; no growth
+# (c1) normaliser alone
 # ------------------------------------------------------------------------------------------------
-bounded('c12_ref_normalize', 'unsigned char a[N]; size_t la;', '''
+S_A = 'unsigned char a[N]; size_t la;'
+NORM_PRE = '''
   VASSUME(in.la <= N);
   unsigned char buf[N], again[N], ref[N];
   for (size_t i = 0; i < N; i++) buf[i] = in.a[i];
   bstr b; b.realptr = buf; b.len = in.la; b.size = N;
+'''
+bounded('c12_ref_normalize', S_A, NORM_PRE + '''
   htp_normalize_uri_path_inplace(&b);
   size_t rl = ref_remove_dot_segments(in.a, in.la, ref);
   VASSERT(b.len <= in.la, "normalised path is never longer than the input");
   VASSERT(b.len == rl, "normalised length equals RFC 3986 5.2.4 (with the pinned trailing-slash exception)");
   for (size_t i = 0; i < N; i++) if (i < b.len && i < rl) VASSERT(buf[i] == ref[i], "normalised bytes equal RFC 3986 5.2.4 (with the pinned trailing-slash exception)");
   VASSERT(!ref_has_dot_segment(buf, b.len), "normalised path contains no . or .. segment");
+''', 8, 10, sub="htp_normalize_uri_path_inplace == literal RFC 3986 5.2.4 reference with the trailing-slash exception; len' <= len; output has no dot segment")
+
+bounded('c12_normalize_idempotent', S_A, NORM_PRE + '''
+  htp_normalize_uri_path_inplace(&b);
   for (size_t i = 0; i < N; i++) again[i] = buf[i];
   bstr c; c.realptr = again; c.len = b.len; c.size = N;
   htp_normalize_uri_path_inplace(&c);
   VASSERT(c.len == b.len, "normalising again does not change the length");
   for (size_t i = 0; i < N; i++) if (i < b.len && i < c.len) VASSERT(again[i] == buf[i], "normalising again does not change the bytes");
-''', 8, 12, sub='htp_normalize_uri_path_inplace == RFC 3986 5.2.4 reference with the trailing-slash exception; len\' <= len; no dot segment; idempotent')
+''', 8, 10, sub='norm(norm(x)) == norm(x) on the real function, run twice')
+
+bounded('c12_normalize_fixpoint', S_A, NORM_PRE + '''
+  VASSUME(!ref_has_dot_segment(in.a, in.la));
+  htp_normalize_uri_path_inplace(&b);
+  VASSERT(b.len == in.la, "a path without dot segments keeps its length");
+  for (size_t i = 0; i < N; i++) if (i < b.len) VASSERT(buf[i] == in.a[i], "a path without dot segments is left unchanged");
+''', 10, 13, sub='the normaliser is the identity on every path that has no . or .. segment (with c12_ref_normalize: idempotence at a larger bound)')
+
+# ------------------------------------------------------------------------------------------------
+# (c2) path decoder alone: bytes, length, indicator set and expected status equal the reference
+# ------------------------------------------------------------------------------------------------
+S_D = 'unsigned char a[N]; size_t la; ref_cfg_t cf; uint64_t flags0; int status0;'
+DEC_PRE = '''
+  VASSUME(in.la <= N && C12_REFCFG_LEGAL(in.cf));
+  VASSERT(C12_FLAGS_AGREE, "reference indicator bits and enumerators are the library's");
+  unsigned char buf[N], ref[N];
+  for (size_t i = 0; i < N; i++) buf[i] = in.a[i];
+  bstr b; b.realptr = buf; b.len = in.la; b.size = N;
+  c12_setup(&in.cf, HTP_DECODER_URL_PATH, bestfit_1252, in.flags0, in.status0);
+  ref_fx_t fx; fx.flags = in.flags0; fx.status = in.status0;
+'''
+DEC_CMP = '''
+  VASSERT(b.len <= in.la, "%(w)s: never longer than the raw path");
+  VASSERT(b.len == rl, "%(w)s: length equals the reference");
+  for (size_t i = 0; i < N; i++) if (i < b.len && i < rl) VASSERT(buf[i] == ref[i], "%(w)s: bytes equal the reference");
+  VASSERT(c12_tx.flags == fx.flags, "%(w)s: indicator set equals the reference (each anomaly flag raised exactly when the construct occurs; no other flag touched)");
+  VASSERT(c12_tx.response_status_expected_number == fx.status, "%(w)s: expected response status equals the reference");
+'''
+bounded('c12_ref_decode_path', S_D, DEC_PRE + '''
+  htp_status_t rc = htp_decode_path_inplace(&c12_tx, &b);
+  size_t rl = ref_decode_path(&in.cf, bestfit_1252, in.a, in.la, ref, &fx);
+  VASSERT(rc == HTP_OK, "decode_path returns HTP_OK for every legal configuration");
+''' + DEC_CMP % {'w': 'decoded path'}, 7, 9, src=('htp_util.c', 'htp_config.c'), unwindset=MAPLOOPS, unwind_extra=1, assumes=A_CFG,
+        sub='htp_decode_path_inplace == reference decoder for every decoder configuration: bytes, length, EQUAL indicator set, equal expected status')
